@@ -57,7 +57,11 @@ def main(tier, seed):
     d = lib.casedir(PID)
     profiles = [None, None, {"slots": "some", "maxdist": "small"}, {"slots": "some", "maxdist": "mid", "ndeps": 6},
                 {"depots": "scarce"}, {"depots": "zero"}, {"depots": "absent", "type_limits": "none"},
-                {"zero_shunting": True, "slots": "some"}, {"ntypes": 3, "slots": "some", "maxdist": "absent"}]
+                {"zero_shunting": True, "slots": "some"}, {"ntypes": 3, "slots": "some", "maxdist": "absent"},
+                {"seat_dominated": True, "type_limits": "none", "seg_limits": "none", "depots": "scarce"},
+                {"seat_dominated": True, "type_limits": "none", "depots": "zero", "ndeps": 6},
+                {"seat_dominated": True, "type_limits": "none", "seg_limits": "none", "depots": "zero", "ndeps": 1},
+                {"seat_dominated": True, "type_limits": "none", "seg_limits": "none", "depots": "zero", "ndeps": 2}]
     insts = lib.load_corpus(PID) + [instgen.gen_instance(rng, rng.choice(profiles)) for _ in range(n)]
     results = lib.pmap(run_one, [(d, k, inst) for k, inst in enumerate(insts)], workers=8)
     return solvefam.conclude(PID, tier, seed, t0, proof, results,
